@@ -24,8 +24,8 @@ def hit (p : Option Pt) (s : Option Elem) : Bool :=
 
 /-- the `(_key_left, _key_right)` table: right rows in order, matching left rows in order -/
 def pairs (left : List (Option Pt)) (right : List (Option Elem)) : List (Nat × Nat) :=
-  ((List.range right.length).zip right).flatMap (fun (j, s) =>
-    ((List.range left.length).zip left).filterMap (fun (i, p) => if hit p s then some (i, j) else none))
+  (List.range right.length).flatMap (fun j =>
+    ((List.range left.length).filter (fun i => hit (left.getD i none) (right.getD j none))).map (fun i => (i, j)))
 
 inductive How where
   | inner | left | right
